@@ -150,6 +150,25 @@ def viaFrontend (fe tag impl : String) : Ans :=
            { model := rs ++ " " ++ renderW (writeRequest r), verdict := v, tags := tag :: tags })
     | _ => { model := "unreadable", verdict := "FAIL:" ++ fe ++ "-harness-R" }
 
+/-- one HTTP/2 connection: the results of its HEADERS frames, `/`-separated; each accepted request is judged
+    exactly like a single-frame case (guarantee predicate on what the real frontend accepted — whatever HPACK
+    representation carried the field —, model bytes, oracle).  The first failing frame decides the verdict. -/
+def viaConn (impl : String) : Ans :=
+  let parts := impl.splitOn "/"
+  let answers := parts.map fun p =>
+    if p == "dead" then ({ model := "dead", verdict := "skip", tags := ["h2c-dead"] } : Ans)
+    else viaFrontend "h2" "h2c" p
+  let model := "/".intercalate (answers.map (·.model))
+  let fails := answers.filter fun a => a.verdict.startsWith "FAIL"
+  let oks := answers.filter fun a => a.verdict == "ok"
+  let verdict := match fails with
+    | a :: _ => a.verdict
+    | [] => if oks.isEmpty then "skip" else "ok"
+  let tags := (answers.flatMap (·.tags)).eraseDups
+  let accepted := (answers.filter fun a => a.verdict != "skip").length
+  { model := model, verdict := verdict,
+    tags := tags ++ (if accepted ≥ 2 then ["h2c-multi"] else []) ++ (if parts.length ≥ 2 && parts.head? == some "reject" && accepted ≥ 1 then ["h2c-after-reject"] else []) }
+
 def run (op impl : String) : Ans :=
   match op.splitOn " " with
   | ["w", fe, rs] =>
@@ -163,6 +182,7 @@ def run (op impl : String) : Ans :=
   | ["rd", _] => viaFrontend "h1" "rd" impl
   | ["h2", _, _, _] => viaFrontend "h2" "h2f" impl
   | ["sp", _, _, _] => viaFrontend "spdy" "spf" impl
+  | ["h2c", _] => viaConn impl
   | _ => { model := "bad-op", verdict := "skip" }
 
 end BfeVerif.C25
